@@ -81,6 +81,8 @@ def models(wd, tier, seed):
 FAM = dict(driver="ccontainer", specdirs=["ccontainer", "lib"], monitor="CContainerPTrace", property_of=PROPERTY_OF, models=models,
            n_random={"quick": 3000, "thorough": 150000},
            x_specs=["ccontainer/CContainer.tla"], p_monitor="ccontainer/CContainerP.tla",
+           advisory=lambda wd, binp, seed, tier: x_conformance(wd, binp, seed, SCEN["quick"] if tier == "quick" else SCEN["thorough"],
+                                                               nrand=100 if tier == "quick" else 1500),
            assumptions=["CContainerP readings R1-R5 (header of specs/ccontainer/CContainerP.tla): storing a value equal under the custom equality may or may not "
                         "replace the content; SwapValue's return value unconstrained; a cancelled / errored waiter is not required to return; "
                         "closed errCh => context.Canceled accepted as documented",
@@ -90,3 +92,50 @@ FAM = dict(driver="ccontainer", specdirs=["ccontainer", "lib"], monitor="CContai
 
 def run(prop, tier, seed):
     return vlib.standard_check(prop, tier, seed, FAM)
+
+
+# --------------------------------------------------------------------------- advisory X-level conformance
+
+def x_conformance(wd, binp, seed, names, nrand=100):
+    """Replays executions of each scenario (seeded random schedules on that scenario, controller steps logged) through
+    the X spec itself (CContainerXTrace.tla: every step must be an enabled action of CContainer.tla; the recorded API
+    events are replayed through the monitor functions into a second monitor record that must equal the spec's own
+    at every step boundary). One TLC run per scenario (the scenario is a CONSTANT of X). Returns a summary dict;
+    never a verdict."""
+    import subprocess, shutil, time
+    t0 = time.time()
+    total = dict(traces=0, events=0, steps=0, drift=0, samples=[])
+    for name in names:
+        if not os.path.exists(scen_path(name)):
+            continue
+        sc = json.load(open(scen_path(name)))
+        scheds = [{"name": "%s/x%d" % (name, i), "scenario": sc, "labels": []} for i in range(nrand)]
+        sf = os.path.join(wd, "x-%s-scheds.json" % name)
+        json.dump(scheds, open(sf, "w"))
+        tf = os.path.join(wd, "x-%s.ndjson" % name)
+        stf = os.path.join(wd, "x-%s.stats.json" % name)
+        p = subprocess.run([binp, "-test.run", "^TestRun$", "-driver", "ccontainer", "-out", tf, "-stats", stf, "-sched", sf, "-seed", str(seed), "-logsteps"],
+                           cwd=wd, capture_output=True, text=True)
+        if p.returncode != 0:
+            total["samples"].append("%s: harness failed" % name)
+            continue
+        d = vlib.spec_scratch(wd, "x-" + name, ["ccontainer", "lib"])
+        consts = ["Prog <- ScProg", "InitVal = %d" % sc.get("init", 0), "M = %d" % sc.get("m", 0), "EagerWake = FALSE"]
+        vlib.write_mc(d, "MCX", "CContainerXTrace", ["ScProg == " + vlib.json2tla(tla_prog(sc))],
+                      ["INIT TInit", "NEXT TNext", "CHECK_DEADLOCK FALSE", "CONSTANTS"] + [" " + c for c in consts])
+        vf = os.path.join(d, "verdict.json")
+        r = vlib.run_tlc(d, "MCX", "MCX.cfg", workers=1, timeout=600,
+                         env={"TRACE_FILE": tf, "VERDICT_FILE": vf,
+                              "JAVA_TOOL_OPTIONS": "-DTLA-Library=%s -Xmx3g -Xss256m -Dtlc2.tool.impl.Tool.cdot=true" % vlib.TLA_LIB})
+        if not os.path.exists(vf):
+            total["samples"].append("%s: X-trace validation did not finish: %s" % (name, r["error"] or r["out"][-300:]))
+            continue
+        v = json.load(open(vf))
+        total["traces"] += nrand
+        total["events"] += v["total"]
+        total["steps"] += json.load(open(stf)).get("steps", 0)
+        total["drift"] += len(v["drift"])
+        total["samples"] += ["%s: %s" % (name, json.dumps(x)) for x in v["drift"][:2]]
+        shutil.rmtree(d, ignore_errors=True)
+    total["wall_s"] = round(time.time() - t0, 1)
+    return total
